@@ -1128,9 +1128,13 @@ def diff(case, impl, model):
     if case["kind"] != "tree":
         return None
     ib, mb = _blocks(impl["obs"]), _blocks(model)
+    racy = case["root"]["exe"] in ("rt", "xrt") and case["root"]["t"] != "fn"
     for i, (a, b) in enumerate(zip(ib, mb)):
         if b and b[0] == "res unmodelled":
             return None
+        if racy and a[-2].endswith("job=1") and b[-2].endswith("job=1"):
+            # a composite running in a real thread shares memory: its children move while it is out
+            a, b = a[:2], b[:2]
         if a != b:
             for x, y in zip(a, b):
                 if x != y:
